@@ -45,19 +45,39 @@
 #define FIXED_DIM 0
 #define COLMAJOR 1
 #define UNBOUNDED 1
-#else
+#elif KIND == 6
 #define KH k_hist_A3_row
 #define FIXED_DIM 3
 #define COLMAJOR 0
+#elif KIND == 7      /* bounded buffer of capacity 4, bounded dim <= 3 */
+#define KH k_hist_B4_row
+#define FIXED_DIM 0
+#define COLMAJOR 0
+#define CAPK 4
+#else
+#define KH k_hist_B4_col
+#define FIXED_DIM 0
+#define COLMAJOR 1
+#define CAPK 4
+#endif
+#ifndef CAPK
+#define CAPK CAPN
 #endif
 #ifndef UNBOUNDED
 #define UNBOUNDED 0
+#endif
+#ifndef CAPU
+#define CAPU CAPK
 #endif
 #ifndef MAXD
 #define MAXD 4      /* requested dims 1..MAXD (4 exceeds every bounded shape kind) */
 #endif
 
-typedef struct { u64 dim; u64 shape[3]; u64 n; u32 d[CAPN]; u8 known[CAPN]; } ma_t;
+/* HCAP: number of buffer cells the model tracks (>= capacity of the kind / cell bound of the query); CAPN (8) is the kernels' output stride */
+#ifndef HCAP
+#define HCAP CAPK
+#endif
+typedef struct { u64 dim; u64 shape[3]; u64 n; u32 d[HCAP]; u8 known[HCAP]; } ma_t;
 static u64 prodn(const u64* s, u64 n){ u64 p = 1; for (u64 i = 0; i < 4; i++) if (i < n) p *= s[i]; return p; }
 /* position of an in-shape index in the buffer: row-major = Horner from the left, column-major = Horner from the right */
 static u64 m_offset(const ma_t* m, const u64* idx){
@@ -74,15 +94,15 @@ static u64 m_stride(const ma_t* m, u64 ax){
 }
 static void m_init(ma_t* m){
   m->dim = FIXED_DIM ? FIXED_DIM : 1; for (int i = 0; i < 3; i++) m->shape[i] = 1; m->n = 1;
-  for (int i = 0; i < CAPN; i++){ m->d[i] = 0; m->known[i] = 0; } m->known[0] = 1;     /* default-constructed: one element, value 0 */
+  for (int i = 0; i < HCAP; i++){ m->d[i] = 0; m->known[i] = 0; } m->known[0] = 1;     /* default-constructed: one element, value 0 */
 }
 /* returns 1 if the resize is accepted (model changed), 0 if it must be refused (model untouched) */
 static int m_resize(ma_t* m, const u64* sh, u64 sdim){
   u64 p = prodn(sh, sdim);
   if (FIXED_DIM){ if (sdim != FIXED_DIM) return 0; } else if (!UNBOUNDED && sdim > 3) return 0;
-  if (!UNBOUNDED && p > CAPN) return 0;
+  if (!UNBOUNDED && p > CAPK) return 0;
   m->dim = sdim; for (u64 i = 0; i < 3; i++) m->shape[i] = i < sdim ? sh[i] : 1;
-  for (u64 i = 0; i < CAPN; i++) if (i >= m->n || i >= p) m->known[i] = 0;       /* cells kept by the buffer stay; newly exposed cells are unspecified */
+  for (u64 i = 0; i < HCAP; i++) if (i >= m->n || i >= p) m->known[i] = 0;       /* cells kept by the buffer stay; newly exposed cells are unspecified */
   m->n = p;
   return 1;
 }
@@ -94,8 +114,15 @@ void h_hist(void){
     ops[s] = in_u8(0, 4); tgt[s] = in_u8(0, 1); sdim[s] = in_u64(1, MAXD); v[s] = in_any32(); rets[s] = 77; mret[s] = 77;
     for (int i = 0; i < 4; i++) sh[4*s+i] = in_u64(MINE, MAXE);
     for (int i = 0; i < 3; i++) widx[3*s+i] = in_u64(0, MAXE - 1);
+#ifdef PRE   /* the first steps of the history as per-query constants: both objects are resized to a chosen shape (concrete state before the symbolic steps) */
+    { static const u64 pre_tab[4][2][4] = {            /* PRE -> { step0: object 0 , step1: object 1 } as (dim, e0, e1, e2) */
+        { {2, 2, 3, 1}, {2, 3, 2, 1} }, { {2, 2, 2, 1}, {2, 1, 4, 1} }, { {3, 2, 2, 2}, {1, 4, 1, 1} }, { {1, 4, 1, 1}, {3, 1, 2, 3} } };
+      if (s < 2){ const u64* e = pre_tab[PRE][s];
+        ASSUME(ops[s] == 0 && tgt[s] == s && sdim[s] == e[0] && sh[4*s] == e[1] && sh[4*s+1] == e[2] && sh[4*s+2] == e[3]);
+        ops[s] = 0; tgt[s] = (u8)s; sdim[s] = e[0]; sh[4*s] = e[1]; sh[4*s+1] = e[2]; sh[4*s+2] = e[3]; } }
+#endif
     ma_t* me = &m[tgt[s]]; ma_t* other = &m[tgt[s] ^ 1];
-    if (UNBOUNDED) ASSUME(ops[s] != 0 || (sdim[s] <= 3 && prodn(&sh[4*s], sdim[s]) <= CAPN));   /* bound of this harness for the unbounded kind: at most 8 cells, dim <= 3 */
+    if (UNBOUNDED) ASSUME(ops[s] != 0 || (sdim[s] <= 3 && prodn(&sh[4*s], sdim[s]) <= CAPU));   /* bound of this harness for the unbounded kind: at most CAPU cells, dim <= 3 */
     switch (ops[s]){
       case 0: mret[s] = m_resize(me, &sh[4*s], sdim[s]); break;
       case 1: for (u64 i = 0; i < 3; i++) ASSUME(i < me->dim ? widx[3*s+i] < me->shape[i] : 1);   /* writes address in-shape indices only */
@@ -109,7 +136,7 @@ void h_hist(void){
   for (int i = 0; i < 3; i++){ p1[i] = in_u64(0, MAXE - 1); p2[i] = in_u64(0, MAXE - 1); ASSUME((u64)i < m[0].dim ? (p1[i] < m[0].shape[i] && p2[i] < m[0].shape[i]) : (p1[i] == 0 && p2[i] == 0)); }
   ASSUME(m[0].n > 0);
   u64 odim[2] = {9, 9}, oshape[6] = {0}, ostr[6] = {0}, olen[2] = {99, 99}, ooff[2] = {99, 99}; u32 odata[2*CAPN], oval[2] = {0, 0};
-  for (int t = 0; t < 2; t++) for (int i = 0; i < CAPN; i++) odata[CAPN*t+i] = 0xdeadbeef;
+  for (int t = 0; t < 2; t++) for (int i = 0; i < HCAP; i++) odata[CAPN*t+i] = 0xdeadbeef;
   KH(ops, tgt, sdim, sh, widx, v, K, rets, odim, oshape, ostr, olen, odata, p1, p2, ooff, oval);
   for (int s = 0; s < K; s++) if (ops[s] == 0){ OBS(rets[s]); ASSERT((int)rets[s] == mret[s], "resize returns true iff the request fits the dimension and capacity bounds"); }
   for (int t = 0; t < 2; t++){
@@ -124,7 +151,7 @@ void h_hist(void){
       ASSERT(ostr[3*t+i] == m_stride(&m[t], i), "strides() match the shape and the layout");
     }
     ASSERT(olen[t] == m[t].n, "buffer length == product of the shape");
-    for (u64 i = 0; i < CAPN; i++) if (i < m[t].n && m[t].known[i]){ OBS(odata[CAPN*t+i]); ASSERT(odata[CAPN*t+i] == m[t].d[i], "buffer cell holds the last value written to it (refused resizes, copies and assignments included)"); }
+    for (u64 i = 0; i < HCAP; i++) if (i < m[t].n && m[t].known[i]){ OBS(odata[CAPN*t+i]); ASSERT(odata[CAPN*t+i] == m[t].d[i], "buffer cell holds the last value written to it (refused resizes, copies and assignments included)"); }
   }
   OBS(ooff[0]); OBS(ooff[1]);
   ASSERT(ooff[0] == m_offset(&m[0], p1) && ooff[1] == m_offset(&m[0], p2), "offset() is the layout's Horner form");
@@ -138,8 +165,8 @@ void h_hist(void){
 /* ------------------------------------------------------------------ legacy hybrid_ndarray<unsigned,8,2> */
 void h_hybrid2(void){
   u8 ops[K], tgt[K]; u64 sh[4*K], widx[3*K]; u32 v[K], rets[K]; int mret[K];
-  u64 ms[2][2] = {{1, 1}, {1, 1}}; u32 me_[2][16]; u8 kn[2][16];
-  for (int t = 0; t < 2; t++) for (int h = 0; h < 2; h++) for (int i = 0; i < 8; i++){ me_[t][8*h+i] = 0; kn[t][8*h+i] = 0; }
+  u64 ms[2][2] = {{CAPN, 1}, {CAPN, 1}}; u32 me_[2][16]; u8 kn[2][16];     /* default-constructed: shape (max_elements, 1), buffer zero-initialised */
+  for (int t = 0; t < 2; t++) for (int h = 0; h < 2; h++) for (int i = 0; i < 8; i++){ me_[t][8*h+i] = 0; kn[t][8*h+i] = ((8*h+i) % 4 == 0); }
   for (int s = 0; s < K; s++){
     ops[s] = in_u8(0, 4); tgt[s] = in_u8(0, 1); v[s] = in_any32(); rets[s] = 77; mret[s] = 77;
     for (int i = 0; i < 4; i++) sh[4*s+i] = in_u64(MINE, MAXE);
@@ -237,6 +264,9 @@ void h_fixed23(void){
 void h_cast(void){
   u64 shape[2], odim = 9, oshape[3] = {0}; u32 data[CAPN];
   shape[0] = in_u64(MINE, MAXE); shape[1] = in_u64(MINE, MAXE); ASSUME(shape[0] * shape[1] <= CAPN);
+#ifdef SH0     /* shape as a per-query constant (destinations backed by std::vector: sizes stay concrete in the solver); data stays symbolic */
+  ASSUME(shape[0] == SH0 && shape[1] == SH1); shape[0] = SH0; shape[1] = SH1;
+#endif
   for (int i = 0; i < CAPN; i++) data[i] = in_any32();
   u64 n = shape[0] * shape[1]; int r = 0;
 #if CASTK == 0
@@ -263,8 +293,13 @@ void h_cast_fixed(void){
   for (int i = 0; i < 6; i++) data[i] = in_any32();
   int r = k_cast_fixed_to_hybrid(data, &odim, oshape, o);
   ASSERT(r == 1 && odim == 2 && oshape[0] == 2 && oshape[1] == 3, "fixed -> hybrid preserves the shape");
-  for (int i = 0; i < 6; i++){ OBS(o[i]); ASSERT(o[i] == data[i], "fixed -> hybrid keeps the values"); o[i] = 0; }
-  odim = 9; r = k_cast_fixed_to_dynamic(data, &odim, oshape, o);
+  for (int i = 0; i < 6; i++){ OBS(o[i]); ASSERT(o[i] == data[i], "fixed -> hybrid keeps the values"); }
+  REACHED();
+}
+void h_cast_fixed_dyn(void){
+  u64 odim = 9, oshape[3] = {0}; u32 data[6], o[6] = {0};
+  for (int i = 0; i < 6; i++) data[i] = in_any32();
+  int r = k_cast_fixed_to_dynamic(data, &odim, oshape, o);
   ASSERT(r == 1 && odim == 2 && oshape[0] == 2 && oshape[1] == 3, "fixed -> dynamic preserves the shape");
   for (int i = 0; i < 6; i++){ OBS(o[i]); ASSERT(o[i] == data[i], "fixed -> dynamic keeps the values"); }
   REACHED();
@@ -326,6 +361,9 @@ void h_mut_slice(void){   /* slices with 0 <= start < stop <= extent and step >=
 }
 void h_mut_flatten_dyn(void){
   u64 shape[2]; u32 before[MCAP], data[MCAP], rb = 0; shape[0] = in_u64(1, MAXE); shape[1] = in_u64(1, MAXE);
+#ifdef SH0
+  ASSUME(shape[0] == SH0 && shape[1] == SH1); shape[0] = SH0; shape[1] = SH1;
+#endif
   u64 n = shape[0] * shape[1]; ASSUME(n <= MCAP);
   for (int i = 0; i < MCAP; i++){ before[i] = in_any32(); data[i] = before[i]; }
   u64 g = in_u64(0, MCAP - 1); ASSUME(g < n); u32 val = in_any32();
